@@ -138,11 +138,11 @@ var checks = []Check{
 	{
 		ID: "C19", Pkg: "checks/c19", Instr: coreInstr,
 		QuickRuns: 30000, ThoroughRuns: 1500000, QuickBudgetS: 60, ThoroughBudgetS: 1200, ShrinkS: 45,
-		Rule: "one run = 1-2 real Monitors (ListenAndServe, RunArchetype) started at drawn times, optionally closed or isolated later; 1-3 archetypes started at drawn times that keep running or end normally, with an assertion error, or by panic; 1-3 real SingleFailureDetectors created at drawn times (before/after monitor and archetype), polling interval 10/50/200 ms, time-out 5/20/100 ms; optionally a slow-network phase (every reply slower than the time-out) followed by a calm one; a probe reads every detector every interval/5; oracles per read: once the archetype has ended or its monitor has gone, every read after 2 intervals + 2 time-outs (+ the slow phase) is TRUE; while the archetype runs on a reachable monitor and the network is calm, every read after the same settling time is FALSE; no read takes longer than 1.5 intervals; a detector does not stay uninitialised; Close returns; non-trivial = more than 10 reads and an alive or failed report observed; distinct = distinct interleaving digests",
+		Rule: "one run = 1-2 real Monitors (ListenAndServe, RunArchetype) started at drawn times, optionally closed or isolated later; 1-3 archetypes started at drawn times that keep running or end normally, with an assertion error, or by panic, a third of the ending ones being run again later under the same id and monitor (a second life that runs on or ends in its own drawn way); 1-3 real SingleFailureDetectors created at drawn times (before/after monitor and archetype), polling interval 10/50/200 ms, time-out 5/20/100 ms; optionally a slow-network phase (every reply slower than the time-out) followed by a calm one; a probe reads every detector every interval/5; oracles per read: once the archetype has ended or its monitor has gone, every read after 2 intervals + 2 time-outs (+ the slow phase) is TRUE; while the archetype runs on a reachable monitor and the network is calm, every read after the same settling time is FALSE; no read takes longer than 1.5 intervals; a detector does not stay uninitialised; Close returns; non-trivial = more than 10 reads and an alive or failed report observed; distinct = distinct interleaving digests",
 		Real:        realU,
 		Stub:        append([]string{"monitored archetypes: harness-built looping archetypes on the real runtime"}, stubU...),
 		Assumptions: []string{"settling time = 2 polling intervals + 2 time-outs + 5 ms (one poll to notice, one call to time out, dial)", "no task stalls are injected (stalls longer than the time-out legitimately produce false suspicions)"},
-		MustProbe:   []string{"archetype_ended_done", "archetype_ended_error", "archetype_ended_panic", "alive_reported", "failure_reported_after_end"}, MinRunsForProbes: 1000,
+		MustProbe:   []string{"archetype_ended_done", "archetype_ended_error", "archetype_ended_panic", "alive_reported", "failure_reported_after_end", "archetype_restarted"}, MinRunsForProbes: 1000,
 	},
 	{
 		ID: "C15", Pkg: "checks/c15", Instr: coreInstr,
